@@ -32,6 +32,12 @@ CHECKS = {
  "C15": dict(cat="model_checking", tech="explicit-state BFS to closure of the storage state machine on the real PersistentSlabStorage vs a three-map model",
    text="Closure of the write-set / cache / ledger state machine over 3 (quick) or 4 (thorough) identifiers under two owners and the temporary address with two versions, plus a 12-identifier universe for the parallel preload path: all API transitions incl. both commits with every failing-mutation position, drops, every preload subset and storage re-creation; after every transition the three layers and every observer agree with the model.",
    note="State = the model triple (ledger, write set, cache); the real layers are read through the verif hook and compared after every transition.", ref="§5 C15"),
+ "C12": dict(cat="model_checking", tech="exhaustive enumeration of digest assignments up to order-isomorphism x explicit-state BFS to closure per assignment and collision limit",
+   text="All 121 (quick, 3 keys) / 2169 (thorough, 4 keys) order-isomorphism classes of 4-level digest assignments through a caller-supplied digester; for each, closure of the map over Set(small|big)/Remove/Get/Has/PopIterate with collision limits 255, 0, 1, 2: dictionary semantics, VerifyMap + independent structure checks, canonical iteration order, and the refusal rule (refused iff first-level digest already shared by more than the limit of entries with distinct second-level digests; a refusal leaves the canonical state unchanged; updates never refused).",
+   note="Keys beyond 4 and digest patterns that need more keys to be observable are outside the bound.", ref="§5 C12"),
+ "C13": dict(cat="model_checking", tech="explicit-state BFS with enumeration oracles in every state and mutation-during-iteration as alphabet operations; exhaustive loaded-slab subsets",
+   text="In every state of array/map/collision closures and trajectory neighbourhoods: every enumeration flavour (read-only, mutable, callback forms, keys/values only, NextKey/NextValue, all ranges incl. invalid classes, loaded-values for every subset of loaded non-root slabs) equals the model's canonical sequence and agrees with lookups; overwriting the current element / growing a nested child at every cursor position during mutable iteration never skips or repeats; map bulk pop yields the reverse canonical order; children from read-only iterators refuse mutation.",
+   note="Loaded-subset enumeration is exhaustive up to 6 non-root slabs per tree (singletons and co-singletons above).", ref="§5 C13"),
  "C09": dict(cat="model_checking", tech="explicit-state BFS; independent reachability oracle (storage IDs == reachable IDs) before and after commit",
    text="With the harness disposing of every value handed back, after every transition (and again after commit) the slab IDs held by write set + ledger must equal the IDs reachable from live roots by an independent traversal, each referenced once, one owner per tree; alphabets are biased to auxiliary slabs (externalised values/keys, inline<->standalone children, bulk pops).",
    note="CheckStorageHealth is used only as a second opinion (C20 decides its trustworthiness).", ref="§5 C09"),
